@@ -3,6 +3,7 @@
 -/
 import XsProps.Common
 import XsProofs.History
+import XsProofs.GcRace
 namespace Xs.C08
 
 /-- One step of any history: a stored frame stops being stored only because
@@ -56,5 +57,45 @@ theorem forever_never_expires (f : Frame) (now : Nat) (h : f.ttl = some .forever
     f.expired now = false := by
   unfold Frame.expired
   rcases h with h | h <;> simp [h]
+
+/-- explicit removals racing the collector, any interleaving: the collector picks its victims in
+    one scan and removes them one by one while other threads remove frames explicitly.  `R1` are
+    the removals that land before the scan - all of frames outside the `k` newest of the topic
+    (`OldIn`) -, `mix` is any sequence made of the collector's own removals and the later
+    explicit ones `R2`.  What is stored at the end is what the sequential history "collector,
+    then every removal" leaves: nothing beyond the explicitly removed frames and the frames
+    outside the `k` newest is lost, wherever the removals fall. -/
+theorem removals_racing_the_collector (ops : List Op) (w : WfOps ops) (c : Nat) (t : List Nat) (k : Nat)
+    (hc : c < idBound) (ht : NulFree t) (R1 R2 mix : List Nat) (hR1 : ∀ x ∈ R1, x < idBound)
+    (hR2 : ∀ x ∈ R2, x < idBound) (hold : ∀ x ∈ R1, OldIn (after ops) c t k x)
+    (hmix : ∀ i, i ∈ mix ↔ i ∈ victimIds (R1.foldl State.remove (after ops)) c t k ∨ i ∈ R2) (g : Frame) :
+    g ∈ frames (mix.foldl State.remove (R1.foldl State.remove (after ops))) ↔
+      g ∈ frames ((R1 ++ R2).foldl State.remove ((after ops).applyTask (.checkHead c t k))) :=
+  removals_race_collector (after_inv w) ht hc k R1 R2 mix hR1 hR2 hold hmix g
+
+/-- … in particular the `k` newest frames of the topic survive the race unless they are removed
+    explicitly -/
+theorem newest_survive_the_race (ops : List Op) (w : WfOps ops) (c : Nat) (t : List Nat) (k : Nat)
+    (hc : c < idBound) (ht : NulFree t) (R1 R2 mix : List Nat) (hR1 : ∀ x ∈ R1, x < idBound)
+    (hR2 : ∀ x ∈ R2, x < idBound) (hold : ∀ x ∈ R1, OldIn (after ops) c t k x)
+    (hmix : ∀ i, i ∈ mix ↔ i ∈ victimIds (R1.foldl State.remove (after ops)) c t k ∨ i ∈ R2) (g : Frame)
+    (hg : g ∈ topicFrames (after ops) c t) (hnew : newerCount (topicFrames (after ops) c t) g < k)
+    (hn1 : g.id ∉ R1) (hn2 : g.id ∉ R2) :
+    g ∈ frames (mix.foldl State.remove (R1.foldl State.remove (after ops))) := by
+  rw [removals_racing_the_collector ops w c t k hc ht R1 R2 mix hR1 hR2 hold hmix g,
+    mem_frames_foldl_remove (applyTask_inv (after_inv w) _) (R1 ++ R2) (fun i hi => by
+      rcases List.mem_append.1 hi with hi | hi
+      · exact hR1 i hi
+      · exact hR2 i hi),
+    checkHead_frames_rank (after_inv w) ht hc]
+  refine ⟨⟨(List.mem_filter.1 hg).1, fun ⟨_, hr⟩ => by omega⟩, ?_⟩
+  simp only [List.mem_append, not_or]; exact ⟨hn1, hn2⟩
+
+/-- non-vacuity: `OldIn` holds of a frame that has `k` newer ones in its topic -/
+example :
+    let L : List Frame := [{ topic := [97], ctx := 0, id := 1, hash := none, mdata := none, ttl := none },
+      { topic := [97], ctx := 0, id := 2, hash := none, mdata := none, ttl := none },
+      { topic := [97], ctx := 0, id := 3, hash := none, mdata := none, ttl := none }]
+    (L.map (newerCount L) = [2, 1, 0]) := by decide
 
 end Xs.C08
